@@ -316,6 +316,48 @@ func checkHelperContractAt(c *Ctx, fn *ssa.Function, cbIdx int, name string, dep
 			c.viol("helper-contract", name, p.Pos(s.Pos()), "batch is committed on a path where the callback's error was not checked to be nil")
 		}
 	}
+	// every return that follows a *successful* callback passes through a commit: a helper that skips the commit for
+	// batches it takes to be empty (seeded change C15-K tests Size() == 0, which on the Pebble batches does not count
+	// range deletes) silently drops a callback's writes although it returned nil
+	var commitInstrs []ssa.Instruction
+	for _, s := range sitesOf(fn) {
+		nm := ""
+		if s.Method != nil {
+			nm = s.Method.Name()
+		} else if s.Callee != nil {
+			nm = s.Callee.Name()
+		}
+		if (nm == "Write" || nm == "Commit") && s.Recv != nil && stripIface(s.Recv) == B {
+			commitInstrs = append(commitInstrs, s.Instr)
+		}
+	}
+	for _, r := range returnsOf(fn) {
+		if !dominatesInstr(call, r.Ret) {
+			continue
+		}
+		onErr := false
+		for _, f := range factsAt(r.Ret) {
+			if b, ok := f.Cond.(*ssa.BinOp); ok {
+				isNilCmp := (stripIface(b.X) == ssa.Value(call) && isNilConst(b.Y)) || (stripIface(b.Y) == ssa.Value(call) && isNilConst(b.X))
+				if isNilCmp && ((b.Op.String() == "!=" && f.Pos) || (b.Op.String() == "==" && !f.Pos)) {
+					onErr = true
+				}
+			}
+		}
+		if onErr {
+			continue
+		}
+		passed := false
+		for _, ci := range commitInstrs {
+			if dominatesInstr(ci, r.Ret) {
+				passed = true
+			}
+		}
+		if !passed {
+			bad++
+			c.viol("helper-contract", name, p.Pos(posOf(r.Ret, fn)), "a return after a successful callback does not pass through the commit of the batch: what the callback wrote is dropped although the helper reports success")
+		}
+	}
 	if commits == 0 && bad == 0 {
 		c.und("helper-contract", name, p.Pos(fnPos(fn)), "no commit of the batch handed to the callback found (the value committed must be the value passed)")
 		return
